@@ -125,8 +125,12 @@ class Solver:
         self.init = init
         self.transfer = transfer
         self.refine = refine
-        self._r4 = refine is not None and refine.__code__.co_argcount >= 4
+        self._r4 = refine is not None and refine.__code__.co_argcount - (1 if hasattr(refine, "__self__") else 0) >= 4
         self.join = join or (lambda a, b: a | b)
+        try:
+            self._j3 = self.join.__code__.co_argcount - (1 if hasattr(self.join, "__self__") else 0) >= 3
+        except AttributeError:
+            self._j3 = False
         self.limit = limit
         self.IN = {}
         self.OUT_EDGE = {}
@@ -167,7 +171,7 @@ class Solver:
                         continue
                 self.OUT_EDGE[(b, si)] = s2
                 if s in IN:
-                    j = self.join(IN[s], s2)
+                    j = self.join(IN[s], s2, s) if self._j3 else self.join(IN[s], s2)
                     if j != IN[s]:
                         IN[s] = j
                         work.add(s)
